@@ -25,8 +25,14 @@ SUBJECT_POOL = [
     "x" * 120,
     "a very long subject " + "word " * 40,
     "",
+    # encoded words whose text lies outside latin-1 (the server has to re-encode
+    # them) and contains characters that need escaping inside a quoted string
+    "=?utf-8?b?" + base64.b64encode('\u041f\u0440\u0438\u0432\u0435\u0442 "\u043c\u0438\u0440" c:\\dir'.encode("utf-8")).decode() + "?=",
+    "=?utf-8?b?" + base64.b64encode("\u65e5\u672c\u8a9e \\ \u30c6\u30b9\u30c8".encode("utf-8")).decode() + "?=",
+    "=?utf-8?q?=E2=82=AC_100_=22quoted=22?= and ascii tail",
+    "=?utf-8?b?" + base64.b64encode("\u0394\u03bf\u03ba\u03b9\u03bc\u03ae plain".encode("utf-8")).decode() + "?=",
 ]
-NAME_POOL = ["Alice Example", '"Quoted, Name"', "Back\\\\slash", '"With \\"inner\\" quotes"', "=?utf-8?q?J=C3=BCrgen?=", "", "O'Brien (comment)"]
+NAME_POOL = ["Alice Example", '"Quoted, Name"', "Back\\\\slash", '"With \\"inner\\" quotes"', "=?utf-8?q?J=C3=BCrgen?=", "", "O'Brien (comment)", "=?utf-8?b?" + base64.b64encode('\u0418\u0432\u0430\u043d "\u0412\u0430\u043d\u044f" \u041f'.encode("utf-8")).decode() + "?="]
 ADDR_POOL = ["alice@example.com", "bob.smith@sub.example.org", "weird+tag@example.net", "local-only", "<>"]
 
 
